@@ -245,6 +245,27 @@ func (s *sharedEntryAttributes) toXmlInternal(parent *etree.Element, onlyNewOrUp
 		if s.parent == nil || (honorNamespace && !namespaceIsEqual(s, s.parent)) {
 			ns = utils.GetNamespaceFromGetSchema(s.GetSchema())
 		}
+		if ll := v.GetLeaflistVal(); ll != nil && onlyNewOrUpdated {
+			// A changed leaf-list: the entries it no longer holds are deleted one by one, its entries are merged. (Replacing
+			// the parent element instead would remove everything else the device holds below the parent.)
+			if running := s.leafVariants.GetByOwner(RunningIntentName); running != nil {
+				if rv, err := running.Update.Value(); err == nil {
+					for _, old := range rv.GetLeaflistVal().GetElement() {
+						if slices.ContainsFunc(ll.GetElement(), func(tv *sdcpb.TypedValue) bool { return utils.EqualTypedValues(tv, old) }) {
+							continue
+						}
+						delElem := parent.CreateElement(s.PathName())
+						if ns != "" {
+							delElem.CreateAttr("xmlns", ns)
+						}
+						delElem.SetText(utils.TypedValueToString(old))
+						utils.AddXMLOperation(delElem, utils.XMLOperationDelete, operationWithNamespace, useOperationRemove)
+					}
+				}
+			}
+			utils.TypedValueToXML(parent, v, s.PathName(), ns, false, operationWithNamespace, useOperationRemove)
+			return true, nil
+		}
 		// convert value to XML and add to parent
 		utils.TypedValueToXML(parent, v, s.PathName(), ns, onlyNewOrUpdated, operationWithNamespace, useOperationRemove)
 		return true, nil
